@@ -65,6 +65,11 @@ var shapes = []shapeDef{
 	{"proxy-authorization", []F{{"Proxy-Authorization", "Basic Zm9vOmJhcg=="}, {"Proxy-Authenticate", "x"}}},
 	{"empty-value", []F{{"X-Empty", ""}, {"X-Sp", "a  b"}}},
 	{"range", []F{{"Range", "bytes=0-1"}, {"If-None-Match", "\"x\""}}},
+	{"keep-alive-alone", []F{{"Keep-Alive", "timeout=5"}}},
+	{"te-alone", []F{{"TE", "trailers"}}},
+	{"trailer-alone", []F{{"Trailer", "X-T"}}},
+	{"upgrade-requested", []F{{"Connection", "Upgrade"}, {"Upgrade", "foo"}}},
+	{"nominated-mixed-case", []F{{"Connection", "x-hOp , Keep-Alive"}, {"X-Hop", "h"}, {"Keep-Alive", "timeout=1"}, {"X-Hop2", "2"}}},
 }
 
 var hopByHop = map[string]bool{"connection": true, "keep-alive": true, "proxy-authenticate": true, "proxy-authorization": true,
@@ -322,7 +327,15 @@ func expectForwarded(x *explore.X, e *env, r reqSpec, got httpwire.Msg) {
 	documented := map[string]bool{"host": true, "via": true, "x-forwarded-for": true, "x-forwarded-proto": true, "x-forwarded-host": true,
 		"x-forwarded-url": true, "accept-encoding": true, "content-length": true, "transfer-encoding": true}
 	for name, vals := range sent {
-		removed := (hopByHop[name] && !(name == "upgrade" && upgradeRequested)) || nominated[name]
+		removed := hopByHop[name] || nominated[name]
+		if name == "upgrade" && upgradeRequested {
+			removed = false
+		}
+		if name == "trailer" && got.Framing == "chunked" && strings.Join(gotBy[name], ",") == strings.Join(vals, ",") {
+			// the proxy re-frames the body with chunked coding and forwards the trailer section: the
+			// Trailer declaration it emits is part of its own framing, like Transfer-Encoding
+			continue
+		}
 		switch {
 		case name == "via" || name == "x-forwarded-for":
 			continue // element lists, below
@@ -615,7 +628,7 @@ func scenario(x *explore.X, product bool, ncfg int) {
 
 func TestC01(t *testing.T) {
 	s := explore.NewSuite(t, "C01", "exploration",
-		"one client connection carrying 0-2 history requests (5 kinds) and one request under test = method(6) x target form(3-4) x path/query(7) x header shape(19) x body framing(3) x size(9) x chunking(4) x version(2) x write segmentation(9) x configuration(direct, upstream HTTP proxy, MITM'd CONNECT tunnel to a TLS origin); all combinations with at most D deviations from the default request (D=3 quick, 4 thorough); plus the full product body framing(2) x size(9) x chunking(4) x segmentation(9) x history(11) x configuration(2 quick, 3 thorough) for POST are executed on the real HTTPProxy over the in-memory network and every request captured at the next hop is compared with expectForwarded; non-trivial = at least one forwarded request was compared")
+		"one client connection carrying 0-2 history requests (5 kinds) and one request under test = method(6) x target form(3-4) x path/query(7) x header shape(24) x body framing(3) x size(9) x chunking(4) x version(2) x write segmentation(9) x configuration(direct, upstream HTTP proxy, MITM'd CONNECT tunnel to a TLS origin); all combinations with at most D deviations from the default request (D=3 quick, 4 thorough); plus the full product body framing(2) x size(9) x chunking(4) x segmentation(9) x history(11) x configuration(2 quick, 3 thorough) for POST are executed on the real HTTPProxy over the in-memory network and every request captured at the next hop is compared with expectForwarded; non-trivial = at least one forwarded request was compared")
 	s.Assume = []string{"simnet models TCP (in-order, reliable, segment boundaries preserved per write)", "httpwire (independent strict parser) is trusted", "crypto/tls of the Go toolchain is used by the scripted TLS peers"}
 	bubble := func(f func(x *explore.X)) func(x *explore.X) {
 		return func(x *explore.X) {
